@@ -937,6 +937,9 @@ func (r *RepData) readMP4Segment(vodFS fs.FS, assetPath string, time uint64, nr 
 		return seg, fmt.Errorf("number of segments is %d, not 1", len(mp4Seg.Segments))
 	}
 	s := mp4Seg.Segments[0]
+	if len(s.Fragments) == 0 {
+		return seg, fmt.Errorf("no fragments in %s", repPath)
+	}
 
 	t := s.Fragments[0].Moof.Traf.Tfdt.BaseMediaDecodeTime()
 	nf := len(s.Fragments)
